@@ -2,6 +2,7 @@ import TLVerif.Util.Hex
 import TLVerif.Rpccalls.ClientConn
 import TLVerif.Rpccalls.WorkerPool
 import TLVerif.Rpccalls.ReqMem
+import TLVerif.Generated.RpccallsFacts
 /-!
 Line-protocol handler of the `rpccalls` family.  Every line is one complete history:
 
@@ -238,6 +239,15 @@ def handle (op : String) (args : List String) : String :=
     match size.toNat?, buf.toNat? with
     | some sz, some b => joinWith "|" (runRM b (Sem.new sz) (splitOps ops) [])
     | _, _ => "bad-op"
+  | "srv", [limit, buf, workers] =>
+    -- `NewServer(ServerWithRequestMemoryLimit, ServerWithRequestBufSize, ServerWithMaxWorkers)`: what the limits become
+    match limit.toInt?, buf.toInt?, workers.toInt? with
+    | some l, some b, some w =>
+      let size : Int := if l > Facts.Rpccalls.maxPacketLen then l else Facts.Rpccalls.maxPacketLen
+      let bs : Int := if b > 512 then b else 512   -- bytes.MinRead
+      let mw : Int := if w ≥ 0 then w else Facts.Rpccalls.defaultMaxWorkers
+      s!"size={size};buf={bs};maxworkers={mw};create={(Pool.new mw).create}"
+    | _, _, _ => "bad-op"
   | _, _ => "bad-op"
 
 end TLVerif.Rpccalls
